@@ -1566,3 +1566,92 @@ mod test {
         );
     }
 }
+
+/// Verification hooks (compiled only with `--cfg rustfmt_verif`).
+#[cfg(rustfmt_verif)]
+pub(crate) mod verif {
+    use super::*;
+
+    /// One use tree: (visibility as written, attributes as written, has_comment, path text).
+    /// Path syntax: segments joined by `::`; `name[ as alias]`, `self|super|crate[ as alias]`,
+    /// `*`, `{t1, t2}` with a `!` in front of a nested tree that carries a comment.
+    pub(crate) type Enc = (Option<String>, Option<String>, bool, String);
+
+    fn alias(a: &Option<String>) -> String {
+        a.as_ref().map_or(String::new(), |a| format!(" as {a}"))
+    }
+
+    pub(crate) fn show(t: &UseTree) -> String {
+        t.path
+            .iter()
+            .map(|s| match &s.kind {
+                UseSegmentKind::Ident(n, a) => format!("{n}{}", alias(a)),
+                UseSegmentKind::Slf(a) => format!("self{}", alias(a)),
+                UseSegmentKind::Super(a) => format!("super{}", alias(a)),
+                UseSegmentKind::Crate(a) => format!("crate{}", alias(a)),
+                UseSegmentKind::Glob => "*".to_owned(),
+                UseSegmentKind::List(l) => format!(
+                    "{{{}}}",
+                    l.iter()
+                        .map(|t| format!("{}{}", if t.has_comment() { "!" } else { "" }, show(t)))
+                        .collect::<Vec<_>>()
+                        .join(", ")
+                ),
+            })
+            .collect::<Vec<_>>()
+            .join("::")
+    }
+
+    pub(crate) fn encode(context: &RewriteContext<'_>, t: &UseTree) -> Enc {
+        (
+            t.visibility.as_ref().map(|v| context.snippet(v.span).to_owned()),
+            t.attrs.as_ref().map(|a| {
+                a.iter()
+                    .map(|x| context.snippet(x.span).to_owned())
+                    .collect::<Vec<_>>()
+                    .join(" ")
+            }),
+            t.has_comment(),
+            show(t),
+        )
+    }
+
+    /// The trees `rewrite_reorderable_or_regroupable_items` starts from: one
+    /// `from_ast_with_normalization` per `use` item, with the list item (comments)
+    /// attached exactly as there.
+    pub(crate) fn trees_of_items(
+        context: &RewriteContext<'_>,
+        items: &[&ast::Item],
+        span: Span,
+    ) -> Vec<UseTree> {
+        let mut normalized_items: Vec<_> = items
+            .iter()
+            .filter_map(|item| UseTree::from_ast_with_normalization(context, item))
+            .collect();
+        let cloned = normalized_items.clone();
+        let list_items = itemize_list(
+            context.snippet_provider,
+            cloned.iter(),
+            "",
+            ";",
+            |item| item.span().lo(),
+            |item| item.span().hi(),
+            |_item| Ok("".to_owned()),
+            span.lo(),
+            span.hi(),
+            false,
+        );
+        for (item, list_item) in normalized_items.iter_mut().zip(list_items) {
+            item.list_item = Some(list_item.clone());
+        }
+        normalized_items
+    }
+
+    pub(crate) fn per_tree(t: &UseTree, granularity: ImportGranularity) -> (String, Vec<String>, String) {
+        (
+            show(&t.clone().normalize()),
+            t.clone().flatten(granularity).iter().map(show).collect(),
+            show(&t.clone().nest_trailing_self()),
+        )
+    }
+}
